@@ -8,7 +8,7 @@
     Circuit.add            the `isinstance(gate, gates.M)` branch (basis-rotation gates added
                            first, queue append, default register name `register<k>` with
                            k = number of M gates already in the queue, duplicate-name rejection
-                           (explicit and default names) against the measurements that are still terminal, `has_collapse`,
+                           (explicit names only) against the measurements that are still terminal, `has_collapse`,
                            `measurements.append`) and the ordinary-gate branch (queue append, the
                            loop over `list(self.measurements)` that turns every terminal
                            measurement sharing a qubit with the new gate into a collapsing one
@@ -79,20 +79,18 @@ def addGate (s : St ν) (qs : List Nat) : St ν :=
   let q := s.queue ++ [{ isM := false, qubits := qs, name := none, collapse0 := false }]
   s.meas.foldl (hitStep q qs) { s with queue := q }
 
-/-- the name the gate carries after `if gate.register_name is None: gate.register_name = …`. -/
-def chosenName (dflt : Nat → ν) (s : St ν) (name : Option ν) : ν :=
-  match name with
-  | none => dflt (nMeas s.queue)
-  | some x => x
-
 /-- `Circuit.add(M(*ts, register_name=name, collapse=c))` (basis Z); `none` = `KeyError`.
-The duplicate check runs for explicit AND default names. -/
+Only an EXPLICIT name is checked against the existing registers. -/
 def addMeas (dflt : Nat → ν) (s : St ν) (ts : List Nat) (name : Option ν) (c : Bool) :
     Option (St ν) :=
   let pos := s.queue.length
-  let x := chosenName dflt s name
-  if s.meas.any (fun p => nameAt s.queue p == some x) then none
-  else
+  let nm : Option ν :=
+    match name with
+    | none => some (dflt (nMeas s.queue))
+    | some x => if s.meas.any (fun p => nameAt s.queue p == some x) then none else some x
+  match nm with
+  | none => none
+  | some x =>
     some { queue := s.queue ++ [{ isM := true, qubits := ts, name := some x, collapse0 := c }],
            coll := fun i => if i = pos then c else s.coll i,
            meas := if c then s.meas else s.meas ++ [pos],
